@@ -350,7 +350,7 @@ fn driver(ctx: &mut Ctx, t: &Value) {
         other => machinery(&format!("unknown driver {other}")),
     }
     ctx.st.outcome(hash64(&got.iter().map(|v| v.to_bits()).collect::<Vec<_>>()));
-    let shape = format!("{}{}", t["m"].as_u64().map(|m| format!("m={m} ")).unwrap_or_default(), format!("n={n}"));
+    let shape = if name == "partial_hessian" { format!("m={} n={}", x.len(), t["y"].as_array().map(|y| y.len()).unwrap_or(0)) } else { format!("{}{}", t["m"].as_u64().map(|m| format!("m={m} ")).unwrap_or_default(), format!("n={n}")) };
     ctx.compare(&format!("driver {name}"), &format!("driver {name} {shape}"), &got, &want, t);
     if let (Some(e), Some(c)) = (expect_class, t["element_class"].as_str()) {
         if e != c {
